@@ -294,3 +294,50 @@ def stale_flags(fn):
                 if ih in reach and oh not in resets:
                     out.append((l, sorted(names), oh, ih, tests[0]))
     return out
+
+
+PASS_THROUGH = ("::clone", "::as_ref", "::deref", "::borrow", "::to_owned", "::into", "::from", "::as_path", "::to_path_buf",
+                "::as_str", "::to_string", "::unwrap", "::expect", "::cloned", "::copied", "::as_mut", "::deref_mut")
+
+
+def source_calls(fn, op, pass_through=PASS_THROUGH):
+    """the calls a value comes from, read off its definition chain: backward over copies, references, field reads and the calls
+    in `pass_through` (which hand their argument on), stopping at every other call.  -> {(callee, block)}; parameters are
+    reported as ("param", n).  Unlike Origins labels this does not blur a container with what is put into it later."""
+    calls_by_dest = {}
+    for b, t in fn.calls():
+        calls_by_dest.setdefault(t["dest"]["l"], []).append((b, t))
+    assigns_by_local = {}
+    for b, j, pl, rv, meta in fn.assigns():
+        assigns_by_local.setdefault(pl["l"], []).append(rv)
+    out, seen, work = set(), set(), []
+    p0 = op_place(op) if not ("l" in op and "p" in op) else op
+    if p0 is None:
+        return out
+    work.append(p0["l"])
+    nargs = fn.d.get("args")
+    while work:
+        l = work.pop()
+        if l in seen:
+            continue
+        seen.add(l)
+        if nargs is not None and 1 <= l <= nargs:
+            out.add(("param", l))
+        for b, t in calls_by_dest.get(l, ()):
+            c = callee(t)
+            base = c
+            if any(base.endswith(s) or (s + "<") in base for s in pass_through):
+                for a in t["args"]:
+                    ap = op_place(a)
+                    if ap is not None:
+                        work.append(ap["l"])
+            else:
+                out.add((c, b))
+        for rv in assigns_by_local.get(l, ()):
+            for o_ in rv.get("ops", ()):
+                ap = op_place(o_)
+                if ap is not None:
+                    work.append(ap["l"])
+            if isinstance(rv.get("place"), dict):
+                work.append(rv["place"]["l"])
+    return out
